@@ -95,9 +95,14 @@ def main(argv):
         mp = os.path.join(d, 'meta.json')
         if os.path.exists(mp):
             old = json.load(open(mp))
-        for k in ('checks_expected', 'caught_by', 'missed_by_before_strengthening', 'notes'):
-            if k in old:
+        for k in old:
+            # notes added by hand (tools/seed_note.py) and, with --existing, summary / needs survive a re-confirmation
+            if k not in meta or (ns.existing and k in ('summary', 'needs_to_manifest', 'property') and not getattr(ns, {'summary': 'summary', 'needs_to_manifest': 'needs', 'property': 'property'}[k])):
                 meta[k] = old[k]
+        if ns.existing and old.get('property'):
+            meta['property'] = old['property']
+            meta['summary'] = ns.summary or old.get('summary', '')
+            meta['needs_to_manifest'] = ns.needs or old.get('needs_to_manifest', '')
         with open(mp, 'w') as f:
             json.dump(meta, f, indent=1)
             f.write('\n')
